@@ -2,7 +2,7 @@
 //! Every case is timed and its heap use is counted (a counting global allocator that is switched on only
 //! while a C10 case runs; for every other property it costs one relaxed load per allocation).
 //! ops (input bytes: `path` | `fixture` | `data` hex):
-//!   {op:"jumbf"}                     BoxReader::read_super_box on a Cursor (helper thread, 3 s: a non-terminating parse is "hang")
+//!   {op:"jumbf"}                     BoxReader::read_super_box on a Cursor (helper thread; "hang" after hang_cpu_ms (3000) ms of CPU without an answer)
 //!   {op:"png"}                       png_io::get_png_chunk_positions + read_cai("png")
 //!   {op:"bmff"}                      BMFFArena::from_stream (read_ftyp_box + build_bmff_tree)
 //!   {op:"read", hint}                Reader::from_context(test settings).with_stream(hint, bytes)
@@ -171,7 +171,7 @@ fn count(sb: &JUMBFSuperBox) -> (u64, u64) {
     (boxes, payload)
 }
 
-fn op_jumbf(data: Vec<u8>) -> Value {
+fn op_jumbf(data: Vec<u8>, hang_cpu_ms: u64) -> Value {
     let (tx, rx) = mpsc::channel();
     std::thread::Builder::new()
         .stack_size(64 << 20)
@@ -199,9 +199,20 @@ fn op_jumbf(data: Vec<u8>) -> Value {
             });
         })
         .expect("spawn");
-    match rx.recv_timeout(Duration::from_secs(3)) {
-        Ok(v) => v,
-        Err(_) => json!({"r": "hang"}),
+    // a parse that never ends burns CPU; a parse that is merely starved by a loaded machine does not: the verdict
+    // "hang" is given on CPU time consumed by this process since the parse started (wall time only as a backstop)
+    let c0 = cpu_ms();
+    let t0 = Instant::now();
+    loop {
+        match rx.recv_timeout(Duration::from_millis(100)) {
+            Ok(v) => return v,
+            Err(mpsc::RecvTimeoutError::Disconnected) => return json!({"r": "crash", "msg": "parser thread vanished"}),
+            Err(mpsc::RecvTimeoutError::Timeout) => {
+                if cpu_ms().saturating_sub(c0) > hang_cpu_ms || t0.elapsed() > Duration::from_secs(600) {
+                    return json!({"r": "hang", "cpu_spent_ms": cpu_ms().saturating_sub(c0)});
+                }
+            }
+        }
     }
 }
 
@@ -235,7 +246,7 @@ fn dispatch(case: &Value) -> Value {
     let op = case["op"].as_str().unwrap_or("read");
     let hint = case["hint"].as_str().unwrap_or("");
     match op {
-        "jumbf" => op_jumbf(load(case)),
+        "jumbf" => op_jumbf(load(case), case["hang_cpu_ms"].as_u64().unwrap_or(3000)),
         "png" => op_png(&load(case)),
         "bmff" => op_bmff(&load(case)),
         "read" => {
